@@ -195,7 +195,9 @@ def tag_of(t):
 
 
 PARSE_WRAPPERS = ("RtMessage::from_bytes", "RtMessage::into_hash_map", "read_u64", "read_u32", "read_u16",
-                  "ReadBytesExt::read_u64", "ReadBytesExt::read_u32")
+                  "ReadBytesExt::read_u64", "ReadBytesExt::read_u32", "::from_le_bytes")
+# views of the same bytes on the way from a field value to its decoder
+BYTE_VIEWS = ("first_chunk", "try_into", "try_from", "copied", "cloned", "as_slice", "as_ref", "deref", "borrow", "to_vec", "to_owned", "as_bytes", "split_first_chunk")
 
 
 def tagpath(world, t, depth=0):
@@ -222,6 +224,9 @@ def tagpath(world, t, depth=0):
                 continue
             if any(short.endswith(w) for w in PARSE_WRAPPERS) and t[2]:
                 decoders.append(short)
+                t = t[2][0]
+                continue
+            if callee_name(name) in BYTE_VIEWS and t[2]:
                 t = t[2][0]
                 continue
             break
